@@ -130,8 +130,19 @@ func directTraversal(e *core.Env, path m.SwitchPath, tag string) {
 	}
 }
 
+// prevPath is a path value that already went through BuildBlocks in this run: a third of the
+// paths are built on such a value with the hops replaced (a refreshed route), so that whatever
+// BuildBlocks leaves in place from the earlier path meets the new labels.
+var prevPath *m.SwitchPath
+
 func buildPath(e *core.Env, hops []m.SwitchHop) (m.SwitchPath, error) {
 	p := m.SwitchPath{Hops: hops}
+	if prevPath != nil && e.Tape.Chance(1, 3) {
+		p = *prevPath
+		p.Hops = hops
+		e.Probe("blocks_rebuilt_on_a_used_path_value")
+	}
+	defer func() { q := p; prevPath = &q }()
 	var err error
 	if e.Guard("panic-in-BuildBlocks", func() { err = p.BuildBlocks() }) {
 		e.Fail("", "")
@@ -203,6 +214,7 @@ func checkDirect(e *core.Env, hops []m.SwitchHop, tag string) {
 
 func run(e *core.Env) {
 	tp := e.Tape
+	prevPath = nil
 	e.StartClock()
 
 	// ---- part 1: direct traversal, enumerated and sampled ----
